@@ -77,6 +77,10 @@ CHECKS = {
          "Positives compare ID, participant order, nonce, app, duration, flags and the fully signed version-0 state of both returned channels with the proposal, and nonce-share differential pairs must change the ID. Negatives deliver every single-condition mutation of well-formed proposals (30 mutators over the three proposal kinds; objects and both serializers) to a client with matching parents and check, after a barrier, that the handler was never invoked and no channel created; unmutated controls must reach the handler.",
          "Trusted: the barrier (a later valid proposal from the same sender answered + bus drained + no handler in flight); only natively encodable proposals are delivered.",
          "DESIGN.md §5 C08"),
+ "C07": ("exploration", "runtime monitoring with an adversary holding a valid key: crafted and rewritten updates delivered to a real accept-everything client; an acceptability predicate evaluated inside the client's persister callback for its own signature",
+         "At several life points (plain channel, locked sub-channels, pending funding, pending settlement) the peer sends correctly signed but unsafe updates (wrong actor, signature over another state, every sums-preserving edit of locked sub-allocations, replays) and rewrites its own funding/settlement updates on its link (wrong debits/credits, other amounts, index maps, touching other sub-allocations). Whenever the victim adds its own signature to a received update, the staged state is judged against its current state by an independent predicate written from the statement.",
+         "Trusted: the predicate (harness/props/c07 acceptable + refmodel.ValidSuccessor); actor taken from the tapped message; virtual-channel funding/settlement at a hub is not in the workload yet.",
+         "DESIGN.md §5 C07"),
 }
 PENDING = {}  # id -> reason, for properties without a check
 
